@@ -332,8 +332,14 @@ def run_roundtrip(case, out):
     if max(len(f) for f in frames) > 50:
         out.label("rows>50")
     out.nontrivial = len(specs) >= 2 or has_text
+    kw_c = {}
+    if (len(specs) + len(frames[0]) + len(frames[0].columns)) % 3 == 0:
+        # comment lines handed to the writer go in front of their block and change nothing else
+        pool = [["version 30001"], ["written by the harness", "data_fake loop_ _rlnX #1"], None, ["a  b\tc # d"]]
+        kw_c = {"comments": [pool[(i + len(frames[0])) % 4] for i in range(len(specs))]}
+        out.label("writer_comments")
     ok, _ = call(out, "Starfile.write", lambda: starfileio.Starfile.write(
-        [f.copy() for f in frames], "w.star", specifiers=list(specs), number_columns=case["number_columns"]))
+        [f.copy() for f in frames], "w.star", specifiers=list(specs), number_columns=case["number_columns"], **kw_c))
     if not ok:
         return
     text = open("w.star", newline="").read()
